@@ -137,6 +137,10 @@ std::string show_df(const dataframe &d)
   out += " CLS=";
   for (const auto &p : d.classes_map_)
     out += hex(p.first) + "=" + std::to_string(p.second) + ",";
+  // id -> name through dataframe::class_name, for every id in use
+  out += " NAMES=";
+  for (class_t i(0); i < d.classes(); ++i)
+    out += hex(d.class_name(i)) + ",";
   out += " EX=";
   for (const auto &e : d)
   {
